@@ -196,15 +196,28 @@ class BodyPart:
         #   Each part MAY have an (optional) "Content-Type" header field, which
         #   defaults to "text/plain".
         value = self._headers.get(b'content-type', b'text/plain')
-        return value.decode('ascii')
+        try:
+            return value.decode('ascii')
+        except ValueError as err:
+            raise MultipartParseError(
+                description='invalid Content-Type header encoding'
+            ) from err
+
+    def _parse_content_disposition(self) -> Tuple[str, Dict[str, str]]:
+        value = self._headers.get(b'content-disposition', b'')
+        try:
+            return parse_header(value.decode())
+        except ValueError as err:
+            raise MultipartParseError(
+                description='invalid Content-Disposition header encoding'
+            ) from err
 
     @property
     def filename(self) -> Optional[str]:
         """File name if the body part is an attached file, and ``None`` otherwise."""
         if self._filename is _UNSET:
             if self._content_disposition is None:
-                value = self._headers.get(b'content-disposition', b'')
-                self._content_disposition = parse_header(value.decode())
+                self._content_disposition = self._parse_content_disposition()
 
             _, params = self._content_disposition
 
@@ -258,8 +271,7 @@ class BodyPart:
         """
         if self._name is _UNSET:
             if self._content_disposition is None:
-                value = self._headers.get(b'content-disposition', b'')
-                self._content_disposition = parse_header(value.decode())
+                self._content_disposition = self._parse_content_disposition()
 
             _, params = self._content_disposition
             self._name = params.get('name')
